@@ -29,7 +29,7 @@ ASSUMPTIONS = [
 ]
 BOUNDS = {'quick': dict(k='0..2', solvers='NM dim<=2, Powell dim 1, DE/DE2 NP=4 dim 1', paths='save file, SetSaveFrequency dump, dill.copy, deepcopy'),
           'thorough': dict(k='0..3', solvers='NM dim<=2, Powell dim<=2, DE/DE2 NP=4 dim<=2', paths='save file, SetSaveFrequency dump, dill.copy, deepcopy')}
-BUDGET = {'quick': 500, 'thorough': 5400}
+BUDGET = {'quick': 1800, 'thorough': 5400}
 
 CURRENT = {}
 
